@@ -14,15 +14,17 @@ Register r05("C05", [](Tier t) {
                        {SELF_INVALIDATE_NEXT, 3, 31, 31, 0}, {H_MOVE_CONSTRUCT, 2, 31, 31, 0}, {H_MOVE_ASSIGN, 3, 31, 31, 0}, {FOREIGN_UNSUB, 1, 0, 0, 0}},
                       t == THOROUGH ? 160 : 80);
     // h[0]: argument signature: () | (int) | (const std::string&) | (std::string) | (int, const std::string&)
-    return genCase("C05", genHeader({{0, 4}}), ops);
+    // h[1]: crowd selector (0..7 -> 0,0,0,0,6,18,35,70 observers subscribed before the history starts)
+    return genCase("C05", genHeader({{0, 4}, {0, 7}}), ops);
 });
 Register r10("C10", [](Tier t) {
     using namespace c10;
     // op: k action, a owner observer, b target, c selects the nesting depth at which it fires (decoded by the executor)
-    auto ops = genOps({{UNSUBSCRIBE, 8, 7, 7, 7}, {NESTED_NOTIFY, 6, 7, 7, 7}, {SUBSCRIBE, 5, 7, 7, 7}, {MUTE, 3, 7, 7, 7}, {UNMUTE, 2, 7, 7, 7},
-                       {INVALIDATE, 4, 7, 7, 7}, {SELF_INVALIDATE, 3, 7, 7, 7}}, t == THOROUGH ? 40 : 20);
+    auto ops = genOps({{UNSUBSCRIBE, 8, 7, 255, 15}, {NESTED_NOTIFY, 7, 7, 255, 15}, {SUBSCRIBE, 5, 7, 255, 15}, {MUTE, 3, 7, 255, 15}, {UNMUTE, 2, 7, 255, 15},
+                       {INVALIDATE, 4, 7, 255, 15}, {SELF_INVALIDATE, 3, 7, 255, 15}}, t == THOROUGH ? 40 : 20);
     // h[0]: initially subscribed observers - 1 (0..5), h[1]: top-level notifies - 1 (0..3)
-    return genCase("C10", genHeader({{0, 5}, {0, 3}}), ops);
+    // h[2]: deep nesting allowed (depth < 7 instead of < 3); h[3]: crowd selector (0,0,12,36 passive observers)
+    return genCase("C10", genHeader({{0, 5}, {0, 3}, {0, 1}, {0, 3}, {0, 11}}), ops);
 });
 Register r16("C16", [](Tier t) {
     using namespace c16;
